@@ -311,11 +311,14 @@ Hypothesis Hpar0 : removelast (comps p) = [] \/
   exists q, In q (accpaths acc) /\ comps q = removelast (comps p) /\ safe (r_fs stin) D (comps q).
 Hypothesis Hlink0 : hardlink_branch s2 = true ->
   In (st_linkname s2) (accpaths acc) /\ safe (r_fs stin) D (comps (st_linkname s2)).
+(* the entry will be walked through (a directory) or named as a link source (no symlink) *)
+Definition wanted : Prop :=
+  st_is_dir s2 = true \/ (mode_is_symlink (st_mode s2) = false /\ is_nil (st_linkname s2) = true).
 Hypothesis Hstack0 : forall ds l, In (ds, l) v' ->
   pcomps ds = [] \/ (exists q, In q (accpaths acc) /\ comps q = pcomps ds /\ safe (r_fs stin) D (comps q))
-  \/ (pcomps ds = comps p /\ solid s2 = true).
+  \/ (pcomps ds = comps p /\ wanted).
 Hypothesis Hseen0 : forall q, In q seen' ->
-  (In q (accpaths acc) /\ safe (r_fs stin) D (comps q)) \/ (q = p /\ solid s2 = true).
+  (In q (accpaths acc) /\ safe (r_fs stin) D (comps q)) \/ (q = p /\ wanted).
 Hypothesis Hclosed0 : r_closed stin = false.
 
 (* the removed-directory prefix while the entry is being diffed *)
@@ -469,6 +472,13 @@ Proof.
 Qed.
 
 
+Lemma wanted_solid : wanted -> solid s2 = true.
+Proof.
+  unfold wanted, solid, st_is_dir. intros [H|[H1 H2]].
+  - rewrite H. reflexivity.
+  - rewrite H1, H2. cbn [negb andb]. rewrite orb_true_r. reflexivity.
+Qed.
+
 Lemma it_in_acc' : In it acc'.
 Proof. unfold acc'. apply in_or_app. right. left. reflexivity. Qed.
 
@@ -480,7 +490,7 @@ Lemma alive_after (st st' : rstate) :
   r_vstk st' = v' -> r_seen st' = seen' ->
   (forall j t, reach (r_fs st') j -> tmpname tmps0 t -> blookup t (ents (r_fs st') j) = None) ->
   (forall q, In q (accpaths acc) -> safe (r_fs stin) D (comps q) -> safe (r_fs st') D (comps q)) ->
-  (solid s2 = true -> safe (r_fs st') D (comps p)) ->
+  (wanted -> safe (r_fs st') D (comps p)) ->
   alive_inv D tmps0 st'.
 Proof.
   intros E1 E2 Htf Hkeep Hsol. constructor.
@@ -539,7 +549,7 @@ Proof.
       * apply cmp_lt_not_prefix. apply accpaths_lt_p. exact Hq.
       * apply (acc_clean q Hq).
       * apply (A2 q Hq Hs).
-    + apply P3. discriminate.
+    + intros Hw. apply P3; [discriminate|apply wanted_solid; exact Hw].
   - (* the old listing *)
     constructor.
     + exists done. rewrite F3. cbn [r_old st0 set_diff]. split; [apply Jv|].
@@ -565,6 +575,177 @@ Proof.
       rewrite (j_split _ _ _ Jv) in Hs'. apply in_app_or in Hs'. destruct Hs' as [Hd|Ho].
       * pose proof (j_done _ _ _ Jv s' Hd) as H. rewrite Es', compare_path_refl in H. discriminate.
       * pose proof (Hgt s' Ho) as H. rewrite Es', compare_path_refl in H. discriminate.
+Qed.
+
+
+Lemma same_file_mode a b : same_file a b = true -> st_mode a = st_mode b.
+Proof.
+  unfold same_file. intros H. repeat (apply andb_true_iff in H; destruct H as [H ?]).
+  apply N.eqb_eq. assumption.
+Qed.
+
+Lemma safe_of_rwalk_nolink f cs i : rwalk f D cs = Some i -> is_link f i = false -> safe f D cs.
+Proof.
+  intros Hw Hl. destruct cs as [|c0 r0] using rev_ind; [exact I|].
+  apply safe_app. split.
+  - pose proof (rwalk_prefix_safe f (r0 ++ [c0]) D i Hw) as H. rewrite removelast_last in H. exact H.
+  - intros j Hj. apply safe_unfold. apply rwalk_snoc in Hw. destruct Hw as (d & Hd & Hb & _).
+    rewrite Hj in Hd. inversion Hd; subst d. rewrite Hb. split; [exact Hl|exact I].
+Qed.
+
+(* the stream has the path of the next old entry *)
+Lemma final_eq st f1 rest done :
+  J st (f1 :: rest) done -> st_path f1 = p ->
+  let rm := if st_is_dir f1 && negb (st_is_dir s2) then st_path f1 ++ [sep] else [] in
+  let st1 := set_diff st rest rm in
+  NInv (if same_file f1 s2 then st1 else apply_change c idx 1 p s2 st1) acc'.
+Proof.
+  intros Jv Ep rm st1. pose proof (j_base _ _ _ Jv) as G.
+  assert (Hin1 : In f1 L0) by (apply (old_in st (f1 :: rest) done f1 Jv); left; reflexivity).
+  destruct (old_entry f1 Hin1) as (Hok1 & Hcl1 & i1 & Hw1 & Hd1 & Hex1 & Hlk1).
+  rewrite Ep in Hw1.
+  assert (Hi1 : i1 < b0) by (apply (old_ino_lt f1 i1 Hin1); rewrite Ep; exact Hw1).
+  assert (HSS : StronglySorted plt (f1 :: rest)) by (apply (old_sorted st (f1 :: rest) done Jv)).
+  assert (Hokall : forall s, In s (f1 :: rest) -> ok_path (st_path s) = true).
+  { intros s Hs. apply (old_entry s (old_in st _ done s Jv Hs)). }
+  assert (Hrest_gt : forall s, In s rest -> compare_path p (st_path s) = Lt).
+  { intros s Hs. rewrite <- Ep. apply (SS_cons_lt plt f1 rest s HSS Hs). }
+  assert (G1 : GB st1 acc').
+  { apply (GBase_quiet D f0 tmps0 st st1 acc' b0 G); try (unfold b0; lia); simpl.
+    - apply step_refl; [apply (g_wf D f0 tmps0 st acc' G)|apply (g_next D f0 tmps0 st acc' G)].
+    - repeat split.
+    - apply G. }
+  (* while the writer is alive: nothing unread is skipped, the entry resolves as at the start *)
+  assert (Hlive : live st = true ->
+            (forall s, In s (f1 :: rest) -> suppressed (r_rmdir st) (st_path s) = false)
+            /\ rwalk (r_fs st) D (comps p) = Some i1).
+  { intros L. destruct (j_live _ _ _ Jv L) as (A1 & A2 & A3 & A4).
+    assert (H1 : suppressed (r_rmdir st) (st_path f1) = false).
+    { destruct A4 as [->|(X & E & B1 & B2 & B3 & B4)]; [reflexivity|]. rewrite E.
+      destruct (suppressed (X ++ [sep]) (st_path f1)) eqn:Es; auto. exfalso.
+      apply suppressed_below in Es. rewrite Ep in Es. apply (dead_not_below v' acc' X p HI' Hparent B3 Hok Es). }
+    split.
+    - intros s [<-|Hs]; auto. apply (not_supp_rest (r_rmdir st) acc' f1 rest HSS Hokall (rmJ_rm_ok _ _ A4) H1 s Hs).
+    - pose proof (A3 f1 (or_introl eq_refl) H1) as H. rewrite Ep, Hw1 in H. exact H. }
+  (* the old-listing part of the invariant, for any state that kept [rest] and [rm] *)
+  assert (HO : forall st', r_old st' = rest -> r_rmdir st' = rm ->
+            (live st' = true -> prist (r_fs st') rm rest) -> OInv st' acc').
+  { intros st' E1 E2 Hp. constructor.
+    - exists (done ++ [f1]). rewrite E1. split; [rewrite (j_split _ _ _ Jv), <- app_assoc; reflexivity|].
+      intros s Hs. exists it. split; [apply it_in_acc'|]. cbn [vpath it item_of]. fold p.
+      apply in_app_or in Hs. destruct Hs as [Hs|[<-|[]]].
+      + rewrite (j_done _ _ _ Jv s Hs). discriminate.
+      + rewrite Ep, compare_path_refl. discriminate.
+    - rewrite E1. intros s it0 Hs Hin0. unfold acc' in Hin0. apply in_app_or in Hin0.
+      destruct Hin0 as [Hin0|[<-|[]]]; [apply (j_gt _ _ _ Jv s it0 (or_intror Hs) Hin0)|].
+      cbn [vpath it item_of]. fold p. apply (Hrest_gt s Hs).
+    - intros L _. rewrite E1, E2. split; [apply Hp; exact L|].
+      unfold rm. destruct (st_is_dir f1 && negb (st_is_dir s2)) eqn:Erm; [right|left; reflexivity].
+      exists p. rewrite Ep. split; [reflexivity|]. split; [exact Hok|]. split; [exact Hrest_gt|]. split.
+      + intros it0 Hin0 E0. unfold acc' in Hin0. apply in_app_or in Hin0. destruct Hin0 as [Hin0|[<-|[]]].
+        * exfalso. assert (Hq : In (vpath it0) (accpaths acc)) by (unfold accpaths; apply in_map; exact Hin0).
+          pose proof (accpaths_lt_p _ Hq) as H. rewrite E0, compare_path_refl in H. discriminate.
+        * cbn [visdir it item_of]. apply andb_true_iff in Erm. destruct Erm as [_ Erm]. apply negb_true_iff in Erm. exact Erm.
+      + exists it. split; [apply it_in_acc'|]. cbn [vpath it item_of]. fold p. rewrite compare_path_refl. discriminate. }
+  destruct (same_file f1 s2) eqn:Esame.
+  - (* nothing to do *)
+    pose proof (same_file_mode f1 s2 Esame) as Emode.
+    split; [|apply HO; auto].
+    + split; [exact G1|]. intros L. assert (L0' : live st = true) by exact L.
+      destruct (j_live _ _ _ Jv L0') as (A1 & A2 & A3 & A4). destruct (Hlive L0') as [_ Hwp].
+      apply (alive_after st st1); cbn [r_vstk r_seen r_fs st1 set_diff]; try apply Jv; auto.
+      intros [Hdir|[Hns _]].
+      * apply (rwalk_dir_safe (r_fs st) (comps p) D i1 Hwp).
+        rewrite (base_is_dir st acc' i1 G Hi1), <- Hd1. unfold st_is_dir in *. rewrite Emode. exact Hdir.
+      * apply (safe_of_rwalk_nolink (r_fs st) (comps p) i1 Hwp).
+        rewrite (base_is_link st acc' i1 G Hi1). destruct (is_link f0 i1) eqn:El; auto.
+        pose proof (Hlk1 eq_refl) as H. rewrite Emode, Hns in H. discriminate.
+    + intros L s Hs Hsup'. assert (L0' : live st = true) by exact L.
+      destruct (j_live _ _ _ Jv L0') as (A1 & A2 & A3 & A4). destruct (Hlive L0') as [Hun _].
+      apply (A3 s (or_intror Hs) (Hun s (or_intror Hs))).
+  - (* the entry changed *)
+    destruct (st_is_dir f1 && st_is_dir s2) eqn:Einp.
+    + (* a directory stays a directory: its metadata is rewritten in place *)
+      apply andb_true_iff in Einp. destruct Einp as [Ed1 Ed2].
+      assert (Erm : rm = []) by (unfold rm; rewrite Ed1, Ed2; reflexivity).
+      assert (Hinp : live st1 = true -> inplace_pre st1 p).
+      { intros L. assert (L0' : live st = true) by exact L. destruct (Hlive L0') as [_ Hwp].
+        unfold inplace_pre. cbn [r_fs st1 set_diff]. split; [exact Hok|]. split.
+        - apply (rwalk_prefix_safe (r_fs st) (comps p) D i1 Hwp).
+        - rewrite (split_comps p Hok) in Hwp. apply rwalk_snoc in Hwp. destruct Hwp as (dd & A & B & _).
+          exists dd, i1. split; [exact A|]. split; [exact B|]. split.
+          + rewrite (base_is_dir st acc' i1 G Hi1), <- Hd1. exact Ed1.
+          + intro E. pose proof (base_tag st acc' i1 G Hi1) as Ht. rewrite E in Ht. simpl in Ht.
+            destruct (get f0 i1); [discriminate|]. apply Hex1. reflexivity. }
+      pose proof (apply_change_inplace idx 1 p s2 st1 acc' G1 eq_refl Ed2 Hinp) as X. cbv zeta in X.
+      set (st2 := apply_change c idx 1 p s2 st1) in *.
+      destruct X as (G2 & (F1 & F2 & F3 & F4 & F5 & F6) & Hl & b & Hb & S).
+      pose proof (g_wf D f0 tmps0 st acc' G) as Wg.
+      change (r_fs st1) with (r_fs st) in S.
+      split.
+      * split; [exact G2|]. intros L2. assert (L0' : live st = true) by (apply (Hl L2)).
+        destruct (j_live _ _ _ Jv L0') as (A1 & A2 & A3 & A4). destruct (Hlive L0') as [_ Hwp].
+        apply (alive_after st st2).
+        -- rewrite F1. apply Jv.
+        -- rewrite F2. apply Jv.
+        -- intros j t Rj Ht. pose proof (quiet_reach D b _ _ j Wg S Rj) as Rj0.
+           rewrite (quiet_blookup D b _ _ j t S (reach_lt D _ j Wg Rj0)). apply A1; auto.
+        -- intros q Hq Hs. apply (quiet_safe D b (r_fs st)); auto.
+        -- intros _. apply (rwalk_dir_safe (r_fs st2) (comps p) D i1).
+           ++ rewrite (quiet_rwalk D b (r_fs st) (r_fs st2) (comps p) Wg S). exact Hwp.
+           ++ rewrite (base_is_dir st2 acc' i1 G2 Hi1), <- Hd1. exact Ed1.
+      * apply HO; [rewrite F3; reflexivity|rewrite F4; reflexivity|].
+        intros L2 s Hs Hsup'. assert (L0' : live st = true) by (apply (Hl L2)).
+        destruct (j_live _ _ _ Jv L0') as (A1 & A2 & A3 & A4). destruct (Hlive L0') as [Hun _].
+        rewrite (quiet_rwalk D b (r_fs st) (r_fs st2) _ Wg S).
+        apply (A3 s (or_intror Hs) (Hun s (or_intror Hs))).
+    + (* replaced by a new entry made next to it *)
+      assert (Hpre : live st1 = true -> change_pre D tmps0 1 st1 p s2 acc').
+      { intros L. assert (L0' : live st = true) by exact L.
+        destruct (j_live _ _ _ Jv L0') as (A1 & A2 & A3 & A4). destruct (Hlive L0') as [_ Hwp].
+        unfold change_pre. cbn [r_fs st1 set_diff r_pipes].
+        split; [exact Hok|]. split; [exact Hclp|]. split.
+        - apply (rwalk_prefix_safe (r_fs st) (comps p) D i1 Hwp).
+        - split; [exact A1|]. split; [|split].
+          + intros _ Hhb. destruct (Hlink0 Hhb) as [Hq Hs]. destruct (acc_clean _ Hq) as [Hokl _]. split; auto.
+            pose proof (A2 _ Hq Hs) as Hs'. rewrite (split_comps _ Hokl) in Hs'. apply safe_prefix in Hs'. exact Hs'.
+          + intros id pp Hin. apply cmp_lt_not_prefix. apply accpaths_lt_p. apply (j_pipes _ _ _ Jv id pp Hin).
+          + intros _. apply p_in_accpaths'. }
+      pose proof (apply_change_inv D root f0 tmps0 tmp_ok idx 1 p s2 st1 acc' G1 Hpre) as X.
+      change {| c_root := root; c_cwd := D |} with c in X. cbv zeta in X.
+      set (st2 := apply_change c idx 1 p s2 st1) in *.
+      destruct X as (G2 & (F1 & F2 & F3 & F4 & F5 & _) & Hpost).
+      split.
+      * split; [exact G2|]. intros L2. destruct (Hpost L2) as (L1 & P1 & P2 & P3).
+        assert (L0' : live st = true) by exact L1.
+        destruct (j_live _ _ _ Jv L0') as (A1 & A2 & A3 & A4).
+        apply (alive_after st st2).
+        -- rewrite F1. apply Jv.
+        -- rewrite F2. apply Jv.
+        -- exact P1.
+        -- intros q Hq Hs. refine (proj1 (P2 (comps q) _ _) _).
+           ++ apply cmp_lt_not_prefix. apply accpaths_lt_p. exact Hq.
+           ++ apply (acc_clean q Hq).
+           ++ apply (A2 q Hq Hs).
+        -- intros Hw. apply P3; [discriminate|apply wanted_solid; exact Hw].
+      * apply HO; [rewrite F3; reflexivity|rewrite F4; reflexivity|].
+        intros L2 s Hs Hsup'. destruct (Hpost L2) as (L1 & P1 & P2 & P3).
+        assert (L0' : live st = true) by exact L1.
+        destruct (j_live _ _ _ Jv L0') as (A1 & A2 & A3 & A4). destruct (Hlive L0') as [Hun _].
+        assert (Hins : In s L0) by (apply (old_in st _ done s Jv); right; exact Hs).
+        destruct (old_entry s Hins) as (Hoks & Hcls & i' & Hws & _).
+        rewrite <- (A3 s (or_intror Hs) (Hun s (or_intror Hs))).
+        refine (proj2 (P2 (comps (st_path s)) _ Hcls)).
+        intros Hpfx.
+        assert (Hne : p <> st_path s) by (apply cmp_lt_ne; apply (Hrest_gt s Hs)).
+        destruct (prefix_proper_below p (st_path s) Hok Hpfx Hne) as (y & Hy & Ey).
+        assert (Hdir1 : st_is_dir f1 = true).
+        { rewrite Ey in Hws. destruct (rwalk_app_dir f0 D (comps p) y i' Hws Hy) as (k & Hk & Hkd).
+          rewrite Hw1 in Hk. inversion Hk; subst k. rewrite Hd1. exact Hkd. }
+        rewrite Hdir1 in Einp. cbn [andb] in Einp.
+        unfold rm in Hsup'. rewrite Hdir1, Einp, Ep in Hsup'. cbn [negb andb] in Hsup'.
+        rewrite (below_suppressed p (st_path s) Hok Hoks) in Hsup'; [discriminate|].
+        exists y. split; auto.
 Qed.
 
 End Feed.
